@@ -124,7 +124,7 @@ theorem moveTo_ok (b : Buf) (i : Nat) (hinv : Inv b) (hi : i ≤ total b)
       exact ⟨hinv, by omega, rfl, fun _ => rfl, rfl, rfl, rfl, rfl, rfl⟩
 
 /-- `replace_glyph` while the text fits the length budget -/
-theorem replaceGlyph_ok (b : Buf) (g : Nat) (hinv : Inv b) (hcur : b.idx < b.len)
+theorem replaceGlyph_ok_fits (b : Buf) (g : Nat) (hinv : Inv b) (hcur : b.idx < b.len)
     (hg : Gen.Buf.ensureGrowOnly = true) (hmax : total b ≤ b.maxLen) :
     ∃ b', b.replaceGlyph g = .ok b' ∧
        (Inv b' ∧ b'.outLen = b.outLen + 1 ∧ b'.idx = b.idx + 1 ∧ b'.len = b.len ∧
@@ -330,7 +330,7 @@ theorem replStep (b : RbModel.Buf) (g : Nat) (hg : Good b) (hcur : b.outLen < to
     ∃ b', liftS (b.replaceGlyph g) = .ok b' ∧ Good b' ∧ b'.outLen = b.outLen + 1 ∧ total b' = total b ∧
       (∀ q, gv b' q = if q = b.outLen then some g else gv b q) ∧ b'.level = b.level := by
   have hc := cur_of_lt b hg hcur
-  obtain ⟨b', e, hinv, ho, hi, hl, hs, hm, hlv, x, hx, hq⟩ := replaceGlyph_ok b g hg.inv hc (by decide) hg.fits
+  obtain ⟨b', e, hinv, ho, hi, hl, hs, hm, hlv, x, hx, hq⟩ := replaceGlyph_ok_fits b g hg.inv hc (by decide) hg.fits
   have ht : total b' = total b := by unfold total; rw [ho, hi, hl]; omega
   refine ⟨b', by rw [e]; rfl, ⟨hinv, by rw [hs]; exact hg.succ, by rw [ht, hm]; exact hg.fits⟩, ho, ht, ?_, hlv⟩
   intro q; unfold gv; rw [hq]
